@@ -61,7 +61,7 @@ use crate::mqtt::packet::ResponsePacket;
 use crate::mqtt::packet::{Property, TopicAliasRecv, TopicAliasSend};
 use crate::mqtt::prelude::GenericPacketTrait;
 use crate::mqtt::result_code::{
-    ConnectReasonCode, ConnectReturnCode, DisconnectReasonCode, MqttError, PubrecReasonCode,
+    ConnectReasonCode, ConnectReturnCode, DisconnectReasonCode, MqttError,
 };
 
 #[cfg(mqtt_protocol_core_verif)]
@@ -3196,7 +3196,7 @@ where
                 if self.pid_pubrec.remove(&packet_id) {
                     self.store.erase(ResponsePacket::V5_0Pubrec, packet_id);
                     let reason_code = packet.reason_code();
-                    if reason_code.is_none() || reason_code.unwrap() == PubrecReasonCode::Success {
+                    if reason_code.is_none() || reason_code.unwrap().is_success() {
                         if self.auto_pub_response && self.status == ConnectionStatus::Connected {
                             let pubrel = v5_0::GenericPubrel::<PacketIdType>::builder()
                                 .packet_id(packet_id)
